@@ -1368,6 +1368,14 @@ class Engine(object):
       self._in_update_loop = False
       self._undo_to_checkpoint(checkpoint)
 
+      # The revert has restored the cells of data columns; leaving their trigger formulas scheduled
+      # would let the next calculation change data on account of an action that did not happen.
+      for node in list(self.recompute_map):
+        table = self.tables.get(node.table_id)
+        col = table.all_columns.get(node.col_id) if table else None
+        if col is None or not col.is_formula():
+          self.recompute_map.pop(node)
+
       # Check schema consistency again. If this fails, something is really wrong (we tried to go
       # back to a good state but failed). We'll just report it loudly.
       try:
